@@ -352,7 +352,8 @@ pub fn search<C: Case>(
                         cases: per as u32,
                         failure_persistence: None,
                         rng_seed: RngSeed::Fixed(mix(ctx.seed, &ctx.id, stage, w)),
-                        max_shrink_iters: 4000,
+                        max_shrink_iters: 3000,
+                        max_shrink_time: 45_000,
                         max_global_rejects: 1 << 20,
                         ..Config::default()
                     };
